@@ -136,7 +136,7 @@ def vname(v):
 
 class Runner:
     def __init__(self):
-        self.impl = vlib.cc_harness("gcm", ["gcm_drv.c", "vcpuid.S"], "hook", extra=EXTRA_CC)
+        self.impl = vlib.cc_harness("gcm", ["gcm_drv.c", "vcpuid.S", "poison.S"], "hook", extra=EXTRA_CC)
         self.model = vlib.ocaml_driver("gcm", "Gcm")
 
     def run_model(self, cases):
